@@ -506,3 +506,15 @@ package tchannel
 //@ func (c *Connection) connectionError(site string, err error) (out error)
 //@   modifies allbut fragmentingReader, cs, doneCalls, doneCode, reqResReader, InboundCall, OutboundCallResponse
 //@   property C12
+
+// ---------------------------------------------------------------------------
+// C06: every announced transport header is written
+// ---------------------------------------------------------------------------
+
+// The header count byte announces len(ch) pairs; each iteration writes one pair
+// in full -- key~1 value~1, i.e. 2 + len(key) + len(value) bytes -- whatever the
+// value is (an empty value is a legal value).
+//@ func (ch transportHeaders) write(w *typed.WriteBuffer)
+//@   label each-announced-header-is-written-in-full
+//@   loop 0 step w.err == nil ==> len(prev(w.remaining)) - len(w.remaining) == 2 + len(k.String()) + len(v)
+//@   property C06
